@@ -229,6 +229,11 @@ def _coding_case(repo, it, S, spec):
     desc = f"coding transcript exons={exons} cds={cds} {sn} frames={frames} with variants {vs} on {'chromosome' if not chunk else 'chunk ' + str(chunk)}"
     edited = apply_edits(REF, list(vs))
     codons = walker(list(cds), sn, frames)
+    if chunk:
+        # on a chunk that cuts the CDS the coding sequence is the codons of the original frame that lie fully on the chunk
+        codons = [c for c in codons if all(chunk[0] <= p_ < chunk[1] for p_ in c)]
+        if any(not (chunk[0] <= v_[0] and v_[1] <= chunk[1]) for v_ in vs) or not codons:
+            return 0, []
     want = "".join(bases(c, sn, edited) for c in codons)
     q = "gene.transcript:TranscriptInterval.incorporate_variants"
     try:
@@ -240,7 +245,8 @@ def _coding_case(repo, it, S, spec):
         return 1, [("construct", f"{desc}: {ex.exc_name}", f"{V}.__init__")]
     n += 1
     k, new = run(it, repo.fn(q), [var], {}, tx)
-    cat = f"{'multi' if len(cds) > 1 else 'single'}-block CDS, {sn}, start frame {'0' if start == 0 else 'nonzero'}"
+    cut5 = bool(chunk) and ((chunk[0] > cds[0][0]) if sn == "PLUS" else (chunk[1] < cds[-1][1]))
+    cat = f"{'multi' if len(cds) > 1 else 'single'}-block CDS, {sn}, start frame {'0' if start == 0 else 'nonzero'}" + (", 5' end cut by the chunk" if cut5 else "")
     if k != "ok":
         return n, [(f"coding incorporation raises ({cat})", f"{desc}: incorporate_variants raises {new}; expected coding sequence {want!r}", q)]
     n += 2
@@ -272,8 +278,10 @@ SNVS = [(10, 11, "T"), (6, 7, "G"), (15, 17, "CA"), (21, 22, "A"), (1, 2, "C")]
 
 def rk_coding(ctx):
     specs = []
-    for ch in (None, (1, 36)):
+    for ch in (None, (1, 36), (7, 36), (1, 20), (6, 23)):
         for model in CODING:
+            if ch not in (None, (1, 36)) and len(model[1]) == 1:
+                continue  # (a single-exon CDS cut at its 5' end with a non-zero frame is the known C05 / C07 finding)
             for start in (0, 1, 2):
                 for i, v in enumerate(SNVS):
                     if ctx.thorough or (i + start) % 2 == 0:
